@@ -422,7 +422,9 @@ func (w *c04World) do(c queue.Client, i int) {
 		if op.K == "set" {
 			ty = types.EventStoreSet
 		}
-		reply, err, _ := w.call(c, ty, &types.StoreSetWithSync{Storeset: &types.StoreSet{StateHash: parent, KV: kvs, Height: h}, Sync: true})
+		lent := lend(kvs)
+		reply, err, _ := w.call(c, ty, &types.StoreSetWithSync{Storeset: &types.StoreSet{StateHash: parent, KV: lent, Height: h}, Sync: true})
+		recycle(lent)
 		if w.handlerPanics(op.K) {
 			return
 		}
